@@ -50,6 +50,16 @@ ForwardingOK(r, o) ==
   \A h \in Fwd : o.vals[h] = "own" \/ (h \in r.upstream /\ h \notin r.conn /\ o.vals[h] = "upstream")
 HostOK(r, o) == o.host = (IF r.passhost THEN "client" ELSE "backend")
 
+(* ----- part 1b: protocol switches (Upgrade) ----- *)
+(* A request asks for a switch when one of the tokens of its Connection header(s) is "upgrade" (any case, blanks ignored) *)
+(* and it carries an Upgrade header.  For such a request the director keeps Upgrade and re-creates "Connection: Upgrade"  *)
+(* (the one exception to the hop-by-hop rule); when the backend answers 101 the reverse proxy relays that response with   *)
+(* its headers and then copies bytes in both directions until either side closes.  asks / backend are the abstractions:   *)
+UpgradeOutcome(asks, backendSwitches) ==
+  IF asks /\ backendSwitches
+    THEN [status |-> 101, tunnel |-> TRUE, upgradeSeen |-> TRUE]
+    ELSE [status |-> 200, tunnel |-> FALSE, upgradeSeen |-> asks]     \* an ordinary exchange; Upgrade is dropped unless asked for
+
 (* ----- part 2: exchange outcomes ----- *)
 Modes == {"ok", "refused", "close_before_head", "reset_before_head", "header_timeout", "client_cancel",
           "abort_body", "other_error"}
